@@ -36,6 +36,37 @@ class Slice:
         self.items = list(items)
 
 
+class SubSlice(Slice):
+    """a window of another slice: reads and writes go through to the parent"""
+    def __init__(self, parent, lo, hi):
+        self.parent, self.lo, self.hi = parent, lo, hi
+
+    @property
+    def items(self):
+        return _Window(self.parent, self.lo, self.hi)
+
+
+class _Window:
+    def __init__(self, parent, lo, hi):
+        self.p, self.lo, self.hi = parent, lo, hi
+
+    def __len__(self):
+        return self.hi - self.lo
+
+    def __getitem__(self, i):
+        if isinstance(i, slice):
+            return [self.p.items[k] for k in range(self.lo, self.hi)][i]
+        if not 0 <= i < self.hi - self.lo:
+            raise IndexError(i)
+        return self.p.items[self.lo + i]
+
+    def __setitem__(self, i, v):
+        self.p.items[self.lo + i] = v
+
+    def __iter__(self):
+        return iter([self.p.items[k] for k in range(self.lo, self.hi)])
+
+
 class Struct:
     def __init__(self, fields):
         self.fields = dict(fields)
@@ -317,6 +348,24 @@ def run(fn, args, stop_before=None, max_steps=4000, call_model=None, stop_after=
         d0 = a0.get() if isinstance(a0, Ref) else a0
         if name == "len" and isinstance(d0, Slice):
             return len(d0.items)
+        if name in ("index", "index_mut") and len(argv) == 2 and isinstance(d0, Slice) and isinstance(argv[1], Struct):
+            # slicing by a range value: the range type is in the call's generic arguments
+            rty = " ".join(t["f"].get("targs") or []) + " " + (t["f"].get("path") or "")
+            fs = argv[1].fields
+            lo_, hi_ = 0, len(d0.items)
+            if "RangeTo<" in rty and set(fs) == {0} and isinstance(fs[0], int):
+                hi_ = fs[0]
+            elif "RangeFrom<" in rty and set(fs) == {0} and isinstance(fs[0], int):
+                lo_ = fs[0]
+            elif "Range<" in rty and set(fs) == {0, 1} and all(isinstance(fs[i], int) for i in (0, 1)):
+                lo_, hi_ = fs[0], fs[1]
+            else:
+                raise Stop("slicing by %s" % rty[:40])
+            if not (0 <= lo_ <= hi_ <= len(d0.items)):
+                raise Stop("slice bounds %d..%d out of range %d" % (lo_, hi_, len(d0.items)))
+            return Ref(SubSlice(d0, lo_, hi_))
+        if name in ("min", "max") and len(argv) == 2 and all(isinstance(x, int) and not isinstance(x, bool) for x in argv):
+            return min(argv) if name == "min" else max(argv)
         if name == "into_iter" and isinstance(d0, (Iter,)):
             return d0
         if name == "into_iter" and isinstance(a0, Struct):
@@ -354,6 +403,32 @@ def run(fn, args, stop_before=None, max_steps=4000, call_model=None, stop_after=
             else:
                 bs = [BV(a0.rows[8 * k:8 * k + 8] + [0] * (W - 8), (a0.const >> (8 * k)) & 0xFF) for k in range(8)]
             return Slice(bs if name == "to_le_bytes" else bs[::-1])
+        if name in ("from_le_bytes", "from_be_bytes") and len(argv) == 1 and isinstance(d0, Slice) and len(d0.items) == 8:
+            bs = list(d0.items) if name == "from_le_bytes" else list(reversed(d0.items))
+            rows, const = [], 0
+            for k, b_ in enumerate(bs):
+                if isinstance(b_, bool):
+                    b_ = int(b_)
+                if isinstance(b_, int):
+                    rows += [0] * 8
+                    const |= (b_ & 0xFF) << (8 * k)
+                elif isinstance(b_, BV):
+                    if any(b_.rows[j] for j in range(8, W)) or (b_.const >> 8):
+                        raise Stop("byte value wider than 8 bits")
+                    rows += b_.rows[:8]
+                    const |= (b_.const & 0xFF) << (8 * k)
+                else:
+                    raise Stop("from_bytes of a non-byte value")
+            return BV(rows, const)
+        if name == "for_each" and len(argv) == 2 and isinstance(d0, Iter) and closure_of is not None:
+            clo = closure_of(t)
+            if clo is None:
+                raise Stop("closure of for_each not resolved")
+            for item in d0.items:
+                env = {"env": argv[1]}
+                byref = (clo.local_ty(1) or "").startswith("&")
+                run(clo, {1: Ref(env, "env") if byref else argv[1], 2: item}, max_steps=max_steps, call_model=call_model, params=params, closure_of=closure_of, const_of=const_of)
+            return ()
         if name in ("map", "flat_map") and len(argv) == 2 and isinstance(d0, Iter) and closure_of is not None:
             clo = closure_of(t)
             if clo is None:
